@@ -41,7 +41,11 @@ const (
 
 var (
 	c08Names  = []string{"a.test", "b.a.test", "fx.test", "xn--c08.test"}
-	c08Qtypes = []uint16{dnsmessage.TypeA, dnsmessage.TypeAAAA, dnsmessage.TypeTXT}
+	// A/AAAA/TXT (weighted), other common types, and types chosen to collide when a
+	// cache key derives the type from a table slip or from fewer than 16 bits:
+	// 64/65 (neighbours), 257/513/65281 (low byte 1 = A), 272 (low byte 16 = TXT),
+	// 255/65535 (low byte 255), 256 (low byte 0).
+	c08Qtypes = []uint16{1, 1, 28, 28, 16, 16, 5, 15, 33, 64, 65, 255, 256, 257, 272, 513, 65281, 65535}
 )
 
 type c08Key struct {
@@ -247,14 +251,36 @@ func c08Mangle(t *rapid.T, n string) (string, bool) {
 	return string(b), changed
 }
 
+// c08Siblings: the other pool types that share t's low byte or differ from it by one.
+func c08Siblings(t uint16) []uint16 {
+	var out []uint16
+	seen := map[uint16]bool{t: true}
+	for _, o := range c08Qtypes {
+		if seen[o] {
+			continue
+		}
+		if o&0xff == t&0xff || o == t+1 || o+1 == t {
+			seen[o] = true
+			out = append(out, o)
+		}
+	}
+	return out
+}
+
 func (s *c08State) genKey(t *rapid.T, preferPresent bool) c08Key {
 	ks := s.sortedKeys()
 	if len(ks) > 0 && preferPresent && rapid.IntRange(0, 9).Draw(t, "present?") < 7 {
 		k := rapid.SampledFrom(ks).Draw(t, "presentKey")
-		switch rapid.IntRange(0, 5).Draw(t, "neighbour") {
+		switch rapid.IntRange(0, 6).Draw(t, "neighbour") {
 		case 0: // same name/type, another scope
 			k.Scope = rapid.IntRange(0, len(s.scopes)-1).Draw(t, "scope")
-		case 1: // same name/scope, another type
+		case 1, 2: // same name/scope, a type that shares the low byte or is adjacent
+			if sib := c08Siblings(k.Qtype); len(sib) > 0 {
+				k.Qtype = rapid.SampledFrom(sib).Draw(t, "siblingType")
+			} else {
+				k.Qtype = rapid.SampledFrom(c08Qtypes).Draw(t, "qtype")
+			}
+		case 3: // same name/scope, any other type
 			k.Qtype = rapid.SampledFrom(c08Qtypes).Draw(t, "qtype")
 		}
 		return k
@@ -304,9 +330,33 @@ func c08RRData(rr dnsmessage.RR) string {
 		return "AAAA:" + b.AAAA.String()
 	case *dnsmessage.TXT:
 		return "TXT:" + strings.Join(b.Txt, "|")
+	case *dnsmessage.CNAME:
+		return "CNAME:" + b.Target
+	case *dnsmessage.MX:
+		return fmt.Sprintf("MX:%d %s", b.Preference, b.Mx)
+	case *dnsmessage.SRV:
+		return fmt.Sprintf("SRV:%d %d %d %s", b.Priority, b.Weight, b.Port, b.Target)
+	case *dnsmessage.SVCB:
+		return fmt.Sprintf("SVCB:%d %s", b.Priority, b.Target)
+	case *dnsmessage.HTTPS:
+		return fmt.Sprintf("HTTPS:%d %s", b.Priority, b.Target)
+	case *dnsmessage.URI:
+		return fmt.Sprintf("URI:%d %d %s", b.Priority, b.Weight, b.Target)
+	case *dnsmessage.CAA:
+		return fmt.Sprintf("CAA:%d %s %s", b.Flag, b.Tag, b.Value)
+	case *dnsmessage.RFC3597:
+		return fmt.Sprintf("TYPE%d:%s", b.Hdr.Rrtype, strings.ToLower(b.Rdata))
 	default:
-		return fmt.Sprintf("%T:%s", rr, rr.String())
+		return fmt.Sprintf("%T(%d):%s", rr, rr.Header().Rrtype, strings.TrimPrefix(rr.String(), rr.Header().String()))
 	}
+}
+
+// c08AnswerType is the record type an answer to qtype carries (ANY is answered with TXT).
+func c08AnswerType(qtype uint16) uint16 {
+	if qtype == dnsmessage.TypeANY {
+		return dnsmessage.TypeTXT
+	}
+	return qtype
 }
 
 func (s *c08State) makeAnswers(fq string, qtype uint16, ttl uint32, n int) ([]dnsmessage.RR, []string) {
@@ -314,17 +364,36 @@ func (s *c08State) makeAnswers(fq string, qtype uint16, ttl uint32, n int) ([]dn
 	var data []string
 	for i := 0; i < n; i++ {
 		s.counter++
-		hdr := dnsmessage.RR_Header{Name: fq, Rrtype: qtype, Class: dnsmessage.ClassINET, Ttl: ttl}
+		at := c08AnswerType(qtype)
+		hdr := dnsmessage.RR_Header{Name: fq, Rrtype: at, Class: dnsmessage.ClassINET, Ttl: ttl}
+		host := fmt.Sprintf("h%d.test.", s.counter)
+		n16 := uint16(s.counter)
 		var rr dnsmessage.RR
-		switch qtype {
+		switch at {
 		case dnsmessage.TypeA:
 			rr = &dnsmessage.A{Hdr: hdr, A: net.IPv4(10, byte(s.counter>>16), byte(s.counter>>8), byte(s.counter)).To4()}
 		case dnsmessage.TypeAAAA:
 			ip := net.ParseIP("2001:db8::1")
 			ip[13], ip[14], ip[15] = byte(s.counter>>16), byte(s.counter>>8), byte(s.counter)
 			rr = &dnsmessage.AAAA{Hdr: hdr, AAAA: ip}
-		default:
+		case dnsmessage.TypeTXT:
 			rr = &dnsmessage.TXT{Hdr: hdr, Txt: []string{fmt.Sprintf("v=%d", s.counter)}}
+		case dnsmessage.TypeCNAME:
+			rr = &dnsmessage.CNAME{Hdr: hdr, Target: host}
+		case dnsmessage.TypeMX:
+			rr = &dnsmessage.MX{Hdr: hdr, Preference: n16, Mx: host}
+		case dnsmessage.TypeSRV:
+			rr = &dnsmessage.SRV{Hdr: hdr, Priority: 1, Weight: 2, Port: n16, Target: host}
+		case dnsmessage.TypeSVCB:
+			rr = &dnsmessage.SVCB{Hdr: hdr, Priority: 1, Target: host}
+		case dnsmessage.TypeHTTPS:
+			rr = &dnsmessage.HTTPS{SVCB: dnsmessage.SVCB{Hdr: hdr, Priority: 1, Target: host}}
+		case dnsmessage.TypeURI:
+			rr = &dnsmessage.URI{Hdr: hdr, Priority: 1, Weight: n16, Target: "u" + host}
+		case dnsmessage.TypeCAA:
+			rr = &dnsmessage.CAA{Hdr: hdr, Flag: 0, Tag: "issue", Value: host}
+		default: // types the DNS library has no structure for: opaque RFC 3597 data
+			rr = &dnsmessage.RFC3597{Hdr: hdr, Rdata: fmt.Sprintf("%08x", s.counter)}
 		}
 		rrs = append(rrs, rr)
 		data = append(data, c08RRData(rr))
@@ -441,6 +510,18 @@ func (s *c08State) lookup(t *rapid.T, k c08Key) {
 		if mixed {
 			nontrivial = true
 			s.cls("lookup_case_variant_of_present")
+		}
+	}
+	for _, o := range s.sortedKeys() {
+		if o.Name == k.Name && o.Scope == k.Scope && o.Qtype != k.Qtype {
+			nontrivial = true
+			s.cls("lookup_other_type_same_name_scope_present")
+			if o.Qtype&0xff == k.Qtype&0xff || o.Qtype == k.Qtype+1 || o.Qtype+1 == k.Qtype {
+				s.cls("lookup_colliding_type_present")
+				if e == nil {
+					s.cls("lookup_colliding_type_present_self_absent")
+				}
+			}
 		}
 	}
 	for _, o := range s.sortedKeys() {
@@ -574,7 +655,7 @@ func (s *c08State) checkAnswer(t *rapid.T, resp []byte, e *c08Entry, name string
 	for _, rr := range m.Answer {
 		got = append(got, c08RRData(rr))
 		h := rr.Header()
-		if !strings.EqualFold(strings.TrimSuffix(h.Name, "."), name) || h.Rrtype != qtype {
+		if !strings.EqualFold(strings.TrimSuffix(h.Name, "."), name) || h.Rrtype != c08AnswerType(qtype) {
 			t.Fatalf("served record %s type %d belongs to another name/type: %s", h.Name, h.Rrtype, ctx())
 		}
 	}
@@ -851,7 +932,7 @@ func c08RunCase(t *rapid.T) {
 	}()
 
 	resolve := func(t *rapid.T) { // cache miss path of HandleWithResponseWriter_: insert, then lookup
-		k := s.genKey(t, false)
+		k := s.genKey(t, rapid.Bool().Draw(t, "nearPresent"))
 		s.insert(t, k)
 		s.lookup(t, k)
 	}
